@@ -531,11 +531,101 @@ def finalize(agg):
     return {}
 
 
+def container_params_body(c):
+    """Parameters kept in a dict / list / tuple (2 or 3 arrays of one shape); the loss is a sum, in a drawn order, of 3-6 terms: an entry
+    indexed with repeated row ids (sparse contribution), an entry used densely, two entries tied by E + F or E * F inside a nonlinearity
+    (one cotangent array reaches both reads).  Every entry's gradient is the sum of its dense-equivalent contributions."""
+    import autograd
+    import autograd.numpy as anp
+
+    vseed = c.seed()
+    kind = c.choice(["dict", "list", "tuple"])
+    ne = c.int(2, 3)
+    rows, cols = c.int(2, 5), c.int(1, 3)
+    arrs, _ = values.generic(vseed, [(rows, cols)] * ne, -1.2, 1.2)
+    keys = ["E", "F", "G"][:ne]
+    nterms = c.int(3, 6)
+    terms = []
+    for k in range(nterms):
+        tk = c.choice(["indexed", "indexed", "dense_sq", "dense_sin", "tied_add", "tied_add", "tied_mul", "row", "pass"])
+        i = c.int(0, ne - 1)
+        j = (i + c.int(1, ne - 1)) % ne
+        ids = [c.int(0, rows - 1) for _ in range(c.int(1, rows + 1))]
+        terms.append((tk, i, j, ids))
+    sample = {"kind": kind, "ne": ne, "shape": [rows, cols], "terms": [(t[0], t[1], t[2], t[3]) for t in terms], "vseed": vseed}
+    c.features.update(kind=kind, n_terms=nterms, first=terms[0][0], kinds=sorted({t[0] for t in terms}))
+    bucket = lambda k: f"C11|container_params|{kind}|{k}"
+    Wt = [values.direction(vseed, (rows, cols), 120 + k) for k in range(nterms)]
+
+    def entry(p, i):
+        return p[keys[i]] if kind == "dict" else p[i]
+
+    def f(p):
+        total = 0.0
+        for k, (tk, i, j, ids) in enumerate(terms):
+            if tk == "indexed":
+                sel = entry(p, i)[onp.array(ids)]
+                total = total + anp.sum(sel * Wt[k][onp.array(ids) % rows])
+            elif tk == "row":
+                total = total + anp.sum(entry(p, i)[ids[0]] * Wt[k][0])
+            elif tk == "dense_sq":
+                total = total + 0.5 * anp.sum(entry(p, i) ** 2)
+            elif tk == "dense_sin":
+                total = total + anp.sum(anp.sin(entry(p, i)) * Wt[k])
+            elif tk == "pass":
+                total = total + anp.sum(entry(p, i) + 0.0)
+            elif tk == "tied_add":
+                total = total + anp.sum(anp.tanh(entry(p, i) + entry(p, j)) * Wt[k])
+            else:
+                total = total + anp.sum(anp.sin(entry(p, i) * entry(p, j)) * Wt[k])
+        return total
+
+    want = [onp.zeros((rows, cols)) for _ in range(ne)]
+    for k, (tk, i, j, ids) in enumerate(terms):
+        if tk == "indexed":
+            onp.add.at(want[i], onp.array(ids), Wt[k][onp.array(ids) % rows])
+        elif tk == "row":
+            want[i][ids[0]] += Wt[k][0]
+        elif tk == "dense_sq":
+            want[i] += arrs[i]
+        elif tk == "dense_sin":
+            want[i] += onp.cos(arrs[i]) * Wt[k]
+        elif tk == "pass":
+            want[i] += 1.0
+        elif tk == "tied_add":
+            t = (1 - onp.tanh(arrs[i] + arrs[j]) ** 2) * Wt[k]
+            want[i] += t
+            want[j] += t
+        else:
+            t = onp.cos(arrs[i] * arrs[j]) * Wt[k]
+            want[i] += t * arrs[j]
+            want[j] += t * arrs[i]
+    mk = lambda: (dict(zip(keys, [a.copy() for a in arrs])) if kind == "dict" else ([a.copy() for a in arrs] if kind == "list" else tuple(a.copy() for a in arrs)))
+    try:
+        g = autograd.grad(f)(mk())
+        vjp, _y = autograd.make_vjp(f)(mk())
+        g2 = vjp(1.0)
+        g3 = vjp(1.0)
+    except Exception as e:
+        if not from_autograd(e):
+            raise
+        return fail("unexpected_exception", describe_exc(e), bucket("exception"), sample=sample)
+    for tag, gg in (("grad", g), ("make_vjp", g2), ("make_vjp, second call", g3)):
+        for i in range(ne):
+            got = onp.asarray(entry(gg, i))
+            if got.shape != (rows, cols) or not onp.allclose(got, want[i], rtol=1e-12, atol=1e-12):
+                return fail("wrong_value", f"{tag}: gradient of entry {keys[i]} differs from the sum of its contributions by {float(onp.max(onp.abs(got - want[i]))) if got.shape == (rows, cols) else 'shape'}; "
+                            f"terms in order: {[t[0] for t in terms]}", bucket("value"), sample=sample)
+    nontrivial = any(t[0] in ("indexed", "row") for t in terms) and any(t[0].startswith("tied") or t[0].startswith("dense") for t in terms)
+    return ok(nontrivial=nontrivial, key=json.dumps([kind, ne, rows, cols, [(t[0], t[1], t[2], t[3]) for t in terms]]), labels=["container_params", "kind=" + kind, "first=" + terms[0][0]], sample=sample)
+
+
 PROP = Prop("C11", [
     Test("index", index_body, quick=4000, thorough=60000, shard_size=400),
     Test("mixing", mixing_body, quick=1500, thorough=20000, shard_size=200),
     Test("reassemble", reassemble_body, quick=2500, thorough=20000, shard_size=250),
     Test("int_cotangent", int_cotangent_body, quick=1500, thorough=10000, shard_size=250),
+    Test("container_params", container_params_body, quick=1500, thorough=12000, shard_size=250),
 ], RULE, assumptions=[
     "NumPy's own indexing applied to arange(size) identifies the selected positions (the scatter model)",
 ])
